@@ -660,7 +660,8 @@ def c02_check(tier, seed):
     covered = collections.Counter()
     unexplained = []
     for (fk, i), f in sorted(failures.items(), key=lambda kv: (kv[0][1], kv[0][0])):
-        hits = [k for k in known if cls.get(i, {}).get(k["classifier"]) and f["kind"] in k.get("failure_kinds", [f["kind"]])]
+        hits = [k for k in known if cls.get(i, {}).get(k["classifier"]) and f["kind"] in k.get("failure_kinds", [f["kind"]])
+                and (k.get("pragma") is None or (k["pragma"] == "ON") == fk)]
         if hits:
             for k in hits:
                 covered[k["id"]] += 1
